@@ -6,7 +6,7 @@
                                   (1 + jitter) * MaxDelay >= MaxInt64 (up to the tolerance): the delay before jitter
                                   is at most MaxDelay, so only then can the float64 -> int64 conversion overflow *)
 EXTENDS Backoff, KnownMarks
-VARIABLES l, idx, last, cfg
+VARIABLES l, idx, last, cfg      \* last: instant at which the previous attempt FAILED
 vars == <<l, idx, last, cfg>>
 NoCfg == [base |-> <<0>>, max |-> <<0>>, mp |-> 1, mq |-> 1, jp |-> 0, jq |-> 1]
 Init == l = 1 /\ idx = 0 /\ last = <<0>> /\ cfg = NoCfg /\ InitRegs /\ InitKnown
@@ -26,14 +26,15 @@ Check(e) ==
          /\ MarkStrong(~Prop_RangeT(e.c, e.n, t, e.maxneg, e.max), "C20_RangeHigh", l)
     \* ---- pacing: dial instants (virtual ns since the start, digit sequences) of ONE subchannel ----
     [] e.ev = "pacecfg" -> cfg' = e.c /\ idx' = 0 /\ last' = <<0>>        \* c
-    [] e.ev = "dial" ->        \* t : the previous attempt (begun at `last`) was the idx-th failure in a row
-         \* this attempt starts >= (1-j) * T(idx-1) after the previous one began (Backoff(idx-1) was slept)
+    [] e.ev = "dial" ->        \* t : the previous attempt was the idx-th failure in a row and failed at `last`
+         \* "waits at least that backoff before trying again": this attempt starts >= (1-j) * T(idx-1) after the
+         \* previous one FAILED (Backoff(idx-1) is slept after the failure, however long the attempt took)
          /\ MarkStrong(idx >= 1 /\ ~Le(Add(RS(cfg, last), LoT(cfg, TargetP(cfg, idx - 1))), RS(cfg, Add(e.t, <<1>>))), "C20_Pace", l)
-         \* after a success / reset the index is 0 again: the first failure is followed by Backoff(0) = base (the scripted
-         \* dial fails at once, so the gap is the slept backoff; a quarter of base is allowed for anything else)
+         \* after a success / reset the index is 0 again: the first failure is followed by Backoff(0) = base (a quarter
+         \* of base is allowed for anything else that might take virtual time)
          /\ MarkStrong(idx = 1 /\ ~Le(MulSmall(e.t, 4), Add(MulSmall(last, 4), MulSmall(cfg.base, 5))), "C20_IndexReset", l)
-         /\ last' = e.t /\ UNCHANGED <<idx, cfg>>
-    [] e.ev = "dialfail" -> idx' = idx + 1 /\ UNCHANGED <<last, cfg>>
+         /\ UNCHANGED <<idx, last, cfg>>
+    [] e.ev = "dialfail" -> idx' = idx + 1 /\ last' = e.t /\ UNCHANGED cfg      \* t : the instant the attempt failed
     [] e.ev = "ready" -> idx' = 0 /\ UNCHANGED <<last, cfg>>
     [] e.ev = "resetbo" -> idx' = 0 /\ UNCHANGED <<last, cfg>>
     [] e.ev = "panic" -> Keep /\ MarkStrong(TRUE, "NoPanic", l)
